@@ -160,6 +160,8 @@ impl Voter {
             inner,
         } = self;
         let Inner { flags, waker, .. } = &**inner;
+        #[cfg(swimos_verif)]
+        let (flags, waker) = (verif_sched::Flags(flags), verif_sched::Wakers(waker));
         let before = flags.fetch_or(*flag, Ordering::Release);
         voted.set(true);
         if before == *inverse {
@@ -184,6 +186,8 @@ impl Voter {
             ..
         } = self;
         let Inner { flags, .. } = &**inner;
+        #[cfg(swimos_verif)]
+        let flags = verif_sched::Flags(flags);
         if voted.get() {
             if *inverse < TWO_VOTERS_LIM {
                 if flags
@@ -238,6 +242,8 @@ impl Future for Receiver {
             waker,
             unanimity,
         } = &*self.get_mut().inner;
+        #[cfg(swimos_verif)]
+        let (flags, waker) = (verif_sched::Flags(flags), verif_sched::Wakers(waker));
         if flags.load(Ordering::Relaxed) == *unanimity {
             Poll::Ready(())
         } else {
@@ -247,6 +253,110 @@ impl Future for Receiver {
             } else {
                 Poll::Pending
             }
+        }
+    }
+}
+
+/// Interleaving points for the model-based verification harness (only with `--cfg swimos_verif`).
+/// Inside `Voter::vote`, `Voter::rescind` and `Receiver::poll` the shared atomics are accessed through
+/// these wrappers, which call [`verif_sched::verif_point`] immediately before every atomic access. The
+/// point is a no-op unless the current thread has installed a scheduler hook.
+#[cfg(swimos_verif)]
+pub mod verif_sched {
+    use futures::task::AtomicWaker;
+    use std::cell::Cell;
+    use std::sync::atomic::{AtomicU8, Ordering};
+    use std::task::Waker;
+
+    thread_local! {
+        static HOOK: Cell<Option<fn(&'static str)>> = const { Cell::new(None) };
+    }
+
+    /// Install (or remove) the scheduler hook of the calling thread.
+    pub fn set_verif_hook(hook: Option<fn(&'static str)>) {
+        HOOK.with(|h| h.set(hook));
+    }
+
+    #[inline]
+    pub fn verif_point(name: &'static str) {
+        if let Some(hook) = HOOK.with(|h| h.get()) {
+            hook(name);
+        }
+    }
+
+    #[derive(Clone, Copy)]
+    pub struct Flags<'a>(pub &'a AtomicU8);
+
+    impl Flags<'_> {
+        pub fn load(&self, order: Ordering) -> u8 {
+            verif_point("load");
+            self.0.load(order)
+        }
+        pub fn store(&self, val: u8, order: Ordering) {
+            verif_point("store");
+            self.0.store(val, order)
+        }
+        pub fn swap(&self, val: u8, order: Ordering) -> u8 {
+            verif_point("swap");
+            self.0.swap(val, order)
+        }
+        pub fn fetch_or(&self, val: u8, order: Ordering) -> u8 {
+            verif_point("fetch_or");
+            self.0.fetch_or(val, order)
+        }
+        pub fn fetch_and(&self, val: u8, order: Ordering) -> u8 {
+            verif_point("fetch_and");
+            self.0.fetch_and(val, order)
+        }
+        pub fn fetch_xor(&self, val: u8, order: Ordering) -> u8 {
+            verif_point("fetch_xor");
+            self.0.fetch_xor(val, order)
+        }
+        pub fn fetch_add(&self, val: u8, order: Ordering) -> u8 {
+            verif_point("fetch_add");
+            self.0.fetch_add(val, order)
+        }
+        pub fn fetch_sub(&self, val: u8, order: Ordering) -> u8 {
+            verif_point("fetch_sub");
+            self.0.fetch_sub(val, order)
+        }
+        pub fn compare_exchange(
+            &self,
+            current: u8,
+            new: u8,
+            success: Ordering,
+            failure: Ordering,
+        ) -> Result<u8, u8> {
+            verif_point("compare_exchange");
+            self.0.compare_exchange(current, new, success, failure)
+        }
+        pub fn compare_exchange_weak(
+            &self,
+            current: u8,
+            new: u8,
+            success: Ordering,
+            failure: Ordering,
+        ) -> Result<u8, u8> {
+            verif_point("compare_exchange");
+            self.0.compare_exchange(current, new, success, failure)
+        }
+    }
+
+    #[derive(Clone, Copy)]
+    pub struct Wakers<'a>(pub &'a AtomicWaker);
+
+    impl Wakers<'_> {
+        pub fn register(&self, waker: &Waker) {
+            verif_point("register");
+            self.0.register(waker)
+        }
+        pub fn wake(&self) {
+            verif_point("wake");
+            self.0.wake()
+        }
+        pub fn take(&self) -> Option<Waker> {
+            verif_point("take");
+            self.0.take()
         }
     }
 }
